@@ -190,7 +190,7 @@ theorem C03_where_const (fp : FP) (part : Part) (rows : List Row) (c : Int) :
     implFilter fp part (.lit (.int c)) = .ok (if c = 0 then [] else List.range part.len)
     ∧ filterRows fp.i2f (some (.lit (.int c))) rows = .ok (if c = 0 then [] else rows) := by
   constructor
-  · by_cases hc : c = 0 <;> simp [implFilter, compile, whereFilter, scalarTy, hc, sharedStrLiteral, strCmpLits]
+  · by_cases hc : c = 0 <;> simp [implFilter, compile, whereFilter, scalarTy, hc]
   · induction rows with
     | nil => by_cases hc : c = 0 <;> simp [filterRows, hc]
     | cons r rs ih =>
@@ -221,28 +221,21 @@ theorem C03_or_null_witness :
 
 /-! ### Panics -/
 
-/-- Full statement: a predicate of the fragment never makes the engine panic. -/
-def C03_no_panic_statement : Prop :=
-  ∀ (fp : FP) (part : Part) (rows : List Row), part.len = rows.length → ∀ e, Frag fp part rows e →
-    implFilter fp part e ≠ .error .panic
+/-- A predicate of the fragment never makes the engine model panic: `encode_int` (saturating), `encode_str`,
+    `int_to_float_cast(..).unwrap()`, the comparison / boolean / null-map / filter operators and `where_filter` yield a
+    result or an error value, for every partition and table length. -/
+theorem C03_no_panic (fp : FP) (part : Part) (rows : List Row) (hlen : part.len = rows.length) (e : Expr)
+    (hf : Frag fp part rows e) : implFilter fp part e ≠ .error .panic :=
+  frag_no_panic fp part rows hlen e hf
 
-/-- Partial: inside the fragment the engine model panics only when one string literal is compared both with a
-    dictionary-coded column and with a decoded (packed) string column of the same partition
-    (`sharedStrLiteral`, the executor defect of the open finding C03-shared-str-const-panic). `encode_int`,
-    `encode_str`, `int_to_float_cast(..).unwrap()` and the operators themselves never panic there. -/
-theorem C03_no_panic_partial (fp : FP) (part : Part) (rows : List Row) (hlen : part.len = rows.length) (e : Expr)
-    (hf : Frag fp part rows e) (hs : sharedStrLiteral part e = false) : implFilter fp part e ≠ .error .panic := by
-  intro h
-  rw [panic_only_shared fp part rows hlen e hf h] at hs
-  cases hs
-
-/-- Refuted (open finding C03-shared-str-const-panic): `c2 = 'a' AND c1 <> 'a'` with `c1` dictionary-coded and `c2`
-    packed — the planner's common-subexpression cache shares the ScalarStr buffer of 'a' between InverseDictLookup and a
-    streaming comparison; QueryExecutor::partition then unwraps `operator::buffer`'s error for a ScalarStr buffer.
-    Witness on the real code: harness corpus class `corpus:shared-literal`. -/
-theorem C03_no_panic_refuted : ¬ C03_no_panic_statement := by
-  intro h
-  exact h Ex2.fp Ex2.part Ex2.rows rfl Ex2.pred Ex2.frag Ex2.impl
+/-- Regression witness of the former finding C03-shared-str-const-panic (executor stage partitioner, fixed by 186ef0c):
+    `c2 = 'a' AND c1 <> 'a'` with `c1` dictionary-coded and `c2` packed is inside the fragment and answers with (no)
+    rows, as the specification demands; the same query heads the harness corpus (`corpus:shared-literal`), where the real
+    code used to answer Canceled. -/
+theorem C03_shared_literal_witness :
+    Frag Ex2.fp Ex2.part Ex2.rows Ex2.pred ∧ implFilter Ex2.fp Ex2.part Ex2.pred = .ok []
+    ∧ filterRows Ex2.fp.i2f (some Ex2.pred) Ex2.rows = .ok [] :=
+  ⟨Ex2.frag, Ex2.impl, rfl⟩
 
 /-! ### Translation tie: the hand-written registry equals the table extracted from query_plan.rs on this run -/
 
